@@ -171,20 +171,53 @@ def _make_time_shim():
     def now():
         s = _sim()
         if s is None:
-            return _time.time()
+            return _REAL_TIME()
         return s.epoch + s.now
 
     def mono():
         s = _sim()
         if s is None:
-            return _time.monotonic()
+            return _REAL_MONO()
         return s.now
 
     m.sleep = sleep
     m.time = now
     m.monotonic = mono
     m.perf_counter = mono
+    m._real = (_REAL_SLEEP, _REAL_TIME, _REAL_MONO)
     return m
+
+
+_REAL_SLEEP, _REAL_TIME, _REAL_MONO = _time.sleep, _time.time, _time.monotonic
+_REAL_PERF = _time.perf_counter
+
+
+def _install_global_time(shim):
+    """Function-level `import time` inside simulated code must see the
+    virtual clock too: patch the real module's functions with sim-aware
+    wrappers (pass-through for every non-simulated thread)."""
+    def sleep(d):
+        s = _sim()
+        if s is None:
+            return _REAL_SLEEP(d)
+        s.sleep(d, interruptible=True)
+
+    def now():
+        s = _sim()
+        return _REAL_TIME() if s is None else s.epoch + s.now
+
+    def mono():
+        s = _sim()
+        return _REAL_MONO() if s is None else s.now
+
+    def perf():
+        s = _sim()
+        return _REAL_PERF() if s is None else s.now
+
+    _time.sleep = sleep
+    _time.time = now
+    _time.monotonic = mono
+    _time.perf_counter = perf
 
 
 # ---------------------------------------------------------- shim: datetime
@@ -562,7 +595,8 @@ def bind():
         "os": _make_os_shim(),
     }
     _BOUND["shims"] = shims
-    report = []
+    _install_global_time(shims["time"])
+    report = [("time", "sleep/time/monotonic/perf_counter", "global wrappers")]
     mods = [auditok.workers, auditok.cmdline, auditok.cmdline_util,
             auditok.io, auditok.core, auditok.util]
     for mod in mods:
